@@ -1,5 +1,6 @@
 import Driver.Run
 import Driver.Fam.Scalars
+import Driver.Fam.ScalarsClosed
 open Driver
 /-- families of area "scalars" -/
-def main (args : List String) : IO UInt32 := run Fam.Scalars.all args
+def main (args : List String) : IO UInt32 := run (Fam.Scalars.all ++ [Fam.ScalarsClosed.closedFam]) args
